@@ -17,7 +17,14 @@ import (
 // implementation constant (validated against the maximum observed on the unchanged tree,
 // which the evidence reports as max_observed_over_budget).
 func faultLimits(n int) (comp.Limits, int) {
-	return comp.Limits{Ticks: tickFactor * int64(n+256), Depth: 4*n + 256}, 20000 * (n + 256)
+	return comp.Limits{Ticks: tickFactor * int64(n+256), Depth: 16*n + 1024}, 0
+}
+
+// maxOutput: `step * 9999` legitimately turns 6 input bytes into 9999 output lines, each
+// preceded by a line marker that repeats the input path, so the only sound bound on the
+// output is 10^4 lines of (path + step) length per input byte.
+func maxOutput(input string, o *comp.Options) int {
+	return 10000 * (len(o.Path) + 64) * (len(input) + 256)
 }
 
 // tickFactor is the per-byte tick budget. Minimisation of a hang lowers it temporarily
@@ -47,7 +54,7 @@ func compileOn(input string, o *comp.Options, d *Disk) comp.Result {
 }
 
 // unaryOracle checks the clauses of C18 that concern a single compilation.
-func unaryOracle(input string, res *comp.Result) (string, string) {
+func unaryOracle(input string, o *comp.Options, res *comp.Result) (string, string) {
 	if res.Panic != "" {
 		return "panic", "compiler panicked: " + res.Panic
 	}
@@ -60,7 +67,7 @@ func unaryOracle(input string, res *comp.Result) (string, string) {
 	if res.BothOrNone != "" {
 		return "both-or-none", res.BothOrNone
 	}
-	_, maxOut := faultLimits(len(input))
+	maxOut := maxOutput(input, o)
 	if res.HasOut && len(res.Out) > maxOut {
 		return "output-growth", fmt.Sprintf("output of %d bytes for an input of %d bytes", len(res.Out), len(input))
 	}
@@ -122,7 +129,8 @@ func (fr *faultRun) observe(kind, desc, input string, o *comp.Options, d *Disk, 
 	if eff || (d != nil && d.Fired > 0) {
 		fr.dist = append(fr.dist, rng.H(rng.HashStr(input), rng.HashStr(optKey(o, d))))
 	}
-	lim, maxOut := faultLimits(len(input))
+	lim, _ := faultLimits(len(input))
+	maxOut := maxOutput(input, o)
 	if r := float64(res.Ticks) / float64(lim.Ticks); r > st.MaxTicksRatio {
 		st.MaxTicksRatio = r
 	}
@@ -134,7 +142,7 @@ func (fr *faultRun) observe(kind, desc, input string, o *comp.Options, d *Disk, 
 	}
 	fr.digest.Add(res.Key())
 	transp.maybe(input, o, &res)
-	if or, detail := unaryOracle(input, &res); or != "" {
+	if or, detail := unaryOracle(input, o, &res); or != "" {
 		fr.report(or, detail, &FaultReplay{Kind: kind, Desc: desc, Input: input, Options: *o, Disk: d, Result: &res})
 	}
 	return res
@@ -176,7 +184,7 @@ func (fr *faultRun) report(oracle, detail string, rp *FaultReplay) {
 // faultEval re-evaluates a (possibly relational) fault case and returns the oracle it breaks.
 func faultEval(rp *FaultReplay) (string, string) {
 	res := compileOn(rp.Input, &rp.Options, cloneDisk(rp.Disk))
-	if or, d := unaryOracle(rp.Input, &res); or != "" {
+	if or, d := unaryOracle(rp.Input, &rp.Options, &res); or != "" {
 		return or, d
 	}
 	if rp.Options2 != nil {
@@ -185,7 +193,7 @@ func faultEval(rp *FaultReplay) (string, string) {
 			in2 = rp.Input
 		}
 		res2 := compileOn(in2, rp.Options2, cloneDisk(rp.Disk2))
-		if or, d := unaryOracle(in2, &res2); or != "" {
+		if or, d := unaryOracle(in2, rp.Options2, &res2); or != "" {
 			return or, d
 		}
 		switch rp.Kind {
@@ -345,7 +353,7 @@ func (fr *faultRun) exec() {
 	st.Evaluations++
 	fr.digest.Add(base.Key())
 	transp.maybe(input0, &o, &base)
-	if orc, d := unaryOracle(input0, &base); orc != "" {
+	if orc, d := unaryOracle(input0, &o, &base); orc != "" {
 		fr.report(orc, d, &FaultReplay{Kind: "baseline", Desc: "unfaulted generated program", Input: input0, Options: o, Disk: healthyDisk(f), Result: &base})
 	}
 	if !base.HasOut {
@@ -363,7 +371,7 @@ func (fr *faultRun) exec() {
 	lint0 := compileOn(input0, &lo, healthyDisk(f))
 	st.Evaluations++
 	fr.digest.Add(lint0.Key())
-	if orc, d := unaryOracle(input0, &lint0); orc != "" {
+	if orc, d := unaryOracle(input0, &lo, &lint0); orc != "" {
 		fr.report(orc, d, &FaultReplay{Kind: "baseline-lint", Desc: "unfaulted generated program, lint parser", Input: input0, Options: lo, Disk: healthyDisk(f), Result: &lint0})
 	}
 	if base.HasOut && lint0.Err != nil {
@@ -503,6 +511,28 @@ func (fr *faultRun) exec() {
 		}
 		m := mode()
 		fr.observe("S9_token_soup", "random token sequence", strings.Join(tt, " "), m, healthyDisk(f), "")
+	}
+	// S10: pathological repetition (deep nesting / long chains): stack depth and
+	// super-linear behaviour show here, nowhere else
+	for n := 0; n < 2; n++ {
+		pre := []string{"", "script S {", "script S { if (", "script S { x(", "text T {", "movement M {", "mart M {", "mapscripts M {", "const A = ", "script S { switch (var(A)) {"}[fr2.Intn(10)]
+		pats := [][2]string{{"(", ")"}, {"!(", ")"}, {"if (flag(A)) {", "}"}, {"while {", "}"}, {"do {", "} while (flag(A))"}, {"switch (var(A)) { case 1:", "}"},
+			{"poryswitch(GAME_VERSION) { RUBY {", "} }"}, {"moves(", ")"}, {"format(", ")"}, {"flag(A) && ", ""}, {"flag(A) || ", ""}, {"!", ""}, {"\"x\" ", ""}, {"x(", ")"}, {"[", "]"},
+			{"case 1: ", ""}, {"if (flag(A)) {} elif (flag(B)) {} ", ""}, {"L: ", ""}, {"a * 9999 ", ""}, {"A, 1: B ", ""}, {"const A = A ", ""}, {"# c\n", ""}, {"`", ""}, {"{", "}"}, {"poryswitch(A) { _: ", "}"}}
+		pt := pats[fr2.Intn(len(pats))]
+		k := []int{3, 17, 64, 300, 1500}[fr2.Intn(5)]
+		if strings.Contains(pt[0], "9999") && k > 17 {
+			k = 17 // each repetition is 10^4 output lines already
+		}
+		in := pre + " " + strings.Repeat(pt[0], k)
+		if fr2.Bool() {
+			in += " flag(A) " + strings.Repeat(pt[1], k)
+		}
+		if fr2.Bool() {
+			in += " }"
+		}
+		m := mode()
+		fr.observe("S10_pathological_repetition", fmt.Sprintf("%q + %q x %d", pre, pt[0], k), in, m, healthyDisk(f), "")
 	}
 	// E: environment faults on the well-formed program
 	fj := f.Fonts.JSON()
